@@ -190,6 +190,11 @@ fn main() {
          vec![V::Int(0), V::List(vec![V::Int(i64::MAX), V::Int(1), V::Int(-5)])]),
         (E::Bin("<=", Box::new(E::P(0)), Box::new(E::P(1))), vec![V::String("20200101".into()), V::String("2020-01-01".into())]),
         (E::Bin("=", Box::new(E::P(0)), Box::new(E::P(1))), vec![V::List(vec![V::Null, V::Int(1)]), V::List(vec![V::Null, V::Int(2)])]),
+        // list elements compared Float-left / Int-right (and reverse, nested): must be exact too
+        (E::Bin("<", Box::new(E::P(0)), Box::new(E::P(1))), vec![V::List(vec![V::Float(9007199254740992.0)]), V::List(vec![V::Int(p53)])]),
+        (E::Bin(">", Box::new(E::P(0)), Box::new(E::P(1))), vec![V::List(vec![V::Int(p53)]), V::List(vec![V::Float(9007199254740992.0)])]),
+        (E::Bin("<=", Box::new(E::P(0)), Box::new(E::P(1))), vec![V::List(vec![V::List(vec![V::Float(9223372036854775808.0)])]), V::List(vec![V::List(vec![V::Int(i64::MAX)])])]),
+        (E::Bin(">=", Box::new(E::P(0)), Box::new(E::P(1))), vec![V::List(vec![V::Int(1), V::Float(-9007199254740992.0)]), V::List(vec![V::Int(1), V::Int(-p53)])]),
         // seed 31 / index 2748: x + x overflows to a float, then float % int (was outside the model)
         (E::Bin("<=", Box::new(E::Bin("%", Box::new(E::Bin("+", Box::new(E::P(0)), Box::new(E::P(0)))), Box::new(E::P(0)))), Box::new(E::P(0))), vec![V::Int(5228675572754606838)]),
         // a temporal string built at run time: "12" + "00" is the local time 12:00
@@ -337,6 +342,16 @@ fn main() {
     for idx in 0..n_law {
         let (va, vb, vc) = if idx < law_corpus.len() {
             law_corpus[idx].clone()
+        } else if r.chance(1, 8) {
+            // lists whose deciding elements are a double next to an integer it cannot represent,
+            // float on the left or on the right, optionally nested one level deeper
+            let i = *r.pick(&[p53, -p53, p53 + 1, i64::MAX, i64::MAX - 1, i64::MIN + 1, (1i64 << 62) + 1]);
+            let f = V::Float(f64::from_bits((i as f64).to_bits().wrapping_add(r.range(-1, 1) as u64)));
+            let wrap = |v: V, deep: bool| if deep { V::List(vec![V::List(vec![v])]) } else { V::List(vec![v]) };
+            let deep = r.chance(1, 3);
+            let (x, y) = (wrap(f.clone(), deep), wrap(V::Int(i), deep));
+            let z = wrap(V::Int(i.wrapping_sub(1)), deep);
+            if r.chance(1, 2) { (x, y, z) } else { (y, x, z) }
         } else {
             let va = gen_value(&mut r, 2, 20);
             let vb = if r.chance(1, 2) { mutate(&mut r, &va) } else { gen_value(&mut r, 2, 20) };
